@@ -1,5 +1,6 @@
 ---------------------------- MODULE MCConnMgr ----------------------------
-(* Concrete universes for model checking ConnMgr.tla.  Node "A","B" have the node DID of their name, "C" has none. *)
+(* Concrete universes for model checking ConnMgr.tla: nodes "A", "B", "D" have the node DID of their name, "C" has none
+   (the driver harness/drivers/connmgr builds its managers the same way); "@N" is the bootstrap contact for the address of N. *)
 EXTENDS ConnMgr, Json
 
 MCDidOf(n) == IF n \in {"A", "B", "D"} THEN n ELSE None
@@ -10,7 +11,6 @@ BudgetsUsed == budget.feed = MaxFeed
 \* behaviour generation (Hist = TRUE): one witness per distinct quiet state with all feeds done
 Emit == (Hist /\ Quiet /\ BudgetsUsed /\ Len(hist) > 0) => PrintT(ToJson(hist))
 EmitBox == (Hist /\ box.next > MaxMsgs) => PrintT(ToJson(hist))
-\* witnesses of the double connection (one inbound, one outbound to the same peer)
+\* witnesses of the double connection (one inbound, one outbound between the same two nodes)
 EmitDup == (Hist /\ ~OnePerPeer) => PrintT(ToJson(hist))
-HistBound == Len(hist) <= 40
 =============================================================================
